@@ -630,6 +630,11 @@ def _diagnose_filter(toks, ents):
     return ""
 
 
+def _aliases_sender(view):
+    """Classification only: a tag >= 10^6 is the packet id the driver gave its re-used object AFTER the send."""
+    return isinstance(view, list) and any(isinstance(x, int) and x >= 1000000 for x in view)
+
+
 def _edge_cause(hasx, exc):
     if exc:
         if exc.startswith("NoMatch"):
@@ -725,6 +730,8 @@ def _replay_edges(edge_ids):
             else:
                 exc = exc or _diagnose_filter(flt, ents)
                 cause = _edge_cause(obs.get("hasx", False), exc)
+            if _aliases_sender(v):
+                cause = "logged-message-aliases-sender-object"     # the view shows the sender's object as it is NOW
             feats = {"kind": "log-edge", "act": act["n"], "what": bad[0], "cause": cause}
             agg.add("B1 log machine: %s differs from specification" % bad[0], feats,
                     {"history": [_act_text(a) for a in hist], "window": W, "behind_wrapping_logger": wrapped,
@@ -1365,7 +1372,8 @@ def _b2(chk: Check, agg: Agg, traces, W, label):
                 if flt is not None:
                     exc = _diagnose_filter(flt, [p["e"] for p in traces[tid][:i + 1] if p["ev"] == "Log"])
             feats = {"kind": "log-walk", "act": ev["ev"], "what": clause.split("[")[0],
-                     "cause": "unevaluable-entry-retention" if unev else _edge_cause(hasx, exc)}
+                     "cause": ("logged-message-aliases-sender-object" if _aliases_sender(ev.get("view"))
+                               else "unevaluable-entry-retention" if unev else _edge_cause(hasx, exc))}
             if feats["cause"] == "refused-well-formed":
                 feats["le_ge"] = _has_le_ge(ev.get("toks", []))
             agg.add("B2 walk: %s" % clause.split("[")[0], feats,
